@@ -340,7 +340,45 @@ static void printReport(const String& out)
   }
   printf(" env=");
   if(mine.length() == (usize)(end - envLine) && memcmp((const char*)mine, envLine, mine.length()) == 0)
-    printf("inherit");
+  {
+    // inherited: show the variables set through the API (names NVT_*), sorted as strings
+    printf("inherit:");
+    const char* items[64];
+    size_t lens[64];
+    int n = 0;
+    for(const char* p = envLine; p < end;)
+    {
+      ++p;
+      const char* e = p;
+      while(e < end && *e != ' ')
+        ++e;
+      if(e - p >= 8 && strncmp(p, "4e56545f", 8) == 0 && n < 64)
+      {
+        int k = n++;
+        while(k > 0)
+        { // insertion sort; hex strings order like the bytes they stand for
+          size_t m = lens[k - 1] < (size_t)(e - p) ? lens[k - 1] : (size_t)(e - p);
+          int c = strncmp(items[k - 1], p, m);
+          if(c < 0 || (c == 0 && lens[k - 1] <= (size_t)(e - p)))
+            break;
+          items[k] = items[k - 1];
+          lens[k] = lens[k - 1];
+          --k;
+        }
+        items[k] = p;
+        lens[k] = (size_t)(e - p);
+      }
+      p = e;
+    }
+    if(n == 0)
+      fputc('-', stdout);
+    for(int i = 0; i < n; ++i)
+    {
+      if(i)
+        fputc(',', stdout);
+      fwrite(items[i], 1, lens[i], stdout);
+    }
+  }
   else if(end == envLine)
     printf("none");
   else
@@ -638,6 +676,76 @@ static void opProc(const HxLine& l)
   }
 }
 
+// ---- environment of the own process -----------------------------------------------------------------
+static void clearTestEnv()
+{
+  for(;;)
+  {
+    bool found = false;
+    for(char** e = environ; *e; ++e)
+      if(strncmp(*e, "NVT_", 4) == 0)
+      {
+        const char* eq = strchr(*e, '=');
+        char name[256];
+        size_t n = eq ? (size_t)(eq - *e) : strlen(*e);
+        if(n >= sizeof(name))
+          n = sizeof(name) - 1;
+        memcpy(name, *e, n);
+        name[n] = 0;
+        unsetenv(name);
+        found = true;
+        break;
+      }
+    if(!found)
+      break;
+  }
+}
+
+static void opEnv(const HxLine& l)
+{
+  if(l.ntok == 4 && strcmp(l.tok[1], "set") == 0)
+  {
+    size_t kl, vl;
+    char* k = hxCStr(l.tok[2], kl);
+    char* v = hxCStr(l.tok[3], vl);
+    bool ok = Process::setEnvironmentVariable(String(k, kl), String(v, vl));
+    free(k);
+    free(v);
+    printf("e ok=%d", ok ? 1 : 0);
+  }
+  else if(l.ntok == 4 && strcmp(l.tok[1], "get") == 0)
+  {
+    size_t kl, dl;
+    char* k = hxCStr(l.tok[2], kl);
+    char* d = hxCStr(l.tok[3], dl);
+    String val = Process::getEnvironmentVariable(String(k, kl), String(d, dl));
+    free(k);
+    free(d);
+    printf("e val=");
+    hxPutHex((const char*)val, val.length());
+  }
+  else if(l.ntok == 2 && strcmp(l.tok[1], "all") == 0)
+  {
+    Map<String, String> all = Process::getEnvironmentVariables();
+    printf("e all=");
+    bool first = true;
+    for(Map<String, String>::Iterator i = all.begin(), end = all.end(); i != end; ++i)
+      if(i.key().startsWith("NVT_"))
+      {
+        if(!first)
+          fputc(',', stdout);
+        first = false;
+        String entry = i.key() + "=" + *i;
+        hxPutHex((const char*)entry, entry.length());
+      }
+    if(first)
+      fputc('-', stdout);
+  }
+  else
+    printf("bad-op");
+  hxEndLine();
+}
+
 // killtest <mask>: a child that blocks reading its redirected stdin is killed
 static void opKillTest(const HxLine& l)
 {
@@ -680,6 +788,7 @@ int main(int argc, char** argv)
     if(hxIs(l, "reset", 0))
     {
       procNew();
+      clearTestEnv();
       printf("ready");
       hxEndLine();
     }
@@ -697,6 +806,8 @@ int main(int argc, char** argv)
       opProc(l);
     else if(hxIs(l, "killtest", 1))
       opKillTest(l);
+    else if(l.ntok >= 2 && strcmp(l.tok[0], "env") == 0)
+      opEnv(l);
     else
     {
       printf("bad-op");
